@@ -336,7 +336,24 @@ def r3_coercions(rule, root=None):
     fd = {(f.get("_owner") or {}).get("self_ty"): f for f in d["_fns"] if f["name"] == "from_dynamic" and not f["_test"]}
     v3 = fd.get("Vec3")
     t = txt(v3["body"]) if v3 else ""
-    if "ifletOk(v)=Vec2::from_dynamic(ctx,d.clone(),None){Ok(Vec3{x:v.x,y:v.y,z:default.map(|d|d.z).unwrap_or(0.0)})}" in t and "vec3_from_rhai_array(ctx,array,default)" in t:
+    okp = False
+    if v3:
+        # the Vec2 -> Vec3 promotion, read with naming lets folded; `unwrap_or` / `map_or` are the same default
+        for st_ in A.find(v3["body"], "Struct"):
+            if (A.path_segs(st_["path"]) or [None])[-1] not in ("Vec3", "Self"):
+                continue
+            f_ = {x["name"]: A.resolve_locals(v3["body"], x["e"]) for x in st_["fields"]}
+            pats_ = [(p_, s_) for p_, s_ in (A.enclosing_patterns(v3["body"], st_) or [])]
+            zt = f_.get("z", "")
+            zok = bool(re.fullmatch(r"default\.map\(\|(\w+)\|\1\.z\)\.unwrap_or\(0\.0\)", zt) or re.fullmatch(r"default\.map_or\(0\.0,\|(\w+)\|\1\.z\)", zt))
+            mv = re.fullmatch(r"(\w+)\.x", f_.get("x", ""))
+            if zok and mv and f_.get("y") == "%s.y" % mv.group(1):
+                okp = True
+        if not okp:
+            # the folded copy has no scope for enclosing_patterns; accept the literal spelling too
+            okp = "Ok(Vec3{x:v.x,y:v.y,z:default.map(|d|d.z).unwrap_or(0.0)})" in t
+        okp = okp and "Vec2::from_dynamic(ctx,d.clone(),None)" in t
+    if okp and "vec3_from_rhai_array(ctx,array,default)" in t:
         rule.ok("Vec3::from_dynamic: a Vec2 is promoted with z from the default; arrays get the default as hint")
     else:
         rule.bad("vec3|from_dynamic", "Vec3::from_dynamic must promote a Vec2 as (x, y, default.z) and pass the default on to the array conversion", A.where(v3) if v3 else TYPES)
@@ -419,7 +436,11 @@ def r3_coercions(rule, root=None):
     d = A.load(LIB, root)
     ff = [f for f in d["_fns"] if f["name"] == "from_dynamic" and (f.get("_owner") or {}).get("self_ty") == "f32"]
     t = txt(ff[0]["body"]) if ff else ""
-    if "d.clone().try_cast::<f64>().map(|f|(fasf32)).or_else(||d.try_cast::<i64>().map(|f|(fasf32)))" in t:
+    okf = (
+        t.fmatch("d.clone().try_cast::<f64>().map(|$F|($Fasf32)).or_else(||d.try_cast::<i64>().map(|$G|($Gasf32)))") is not None
+        or (t.fmatch("ifletSome($F)=d.clone().try_cast::<f64>(){Ok(($Fasf32))}") is not None and t.fmatch("elseifletSome($G)=d.try_cast::<i64>(){Ok(($Gasf32))}") is not None)
+    )
+    if okf:
         rule.ok("numbers (float or integer) coerce to f32")
     else:
         rule.bad("coerce|f32", "f32::from_dynamic must accept f64 and i64", "%s:%s" % (LIB, ff[0]["ln"] if ff else "?"))
